@@ -289,7 +289,7 @@ impl Mach {
                 match s {
                     State::HALT => self.done = true,
                     State::PRINT => {
-                        if p.printer.parse(vm, &line).is_err() {
+                        if print_with(&p.printer, vm, &line).is_err() {
                             self.done = true;
                         }
                         self.idx += 1;
@@ -367,6 +367,19 @@ fn pristine(vm: &VM) -> Result<(), String> {
     Ok(())
 }
 
+/// the print reader called with a string directly (sim/build.rs: only when it has today's shape)
+#[cfg(print_reader_takes_vm)]
+pub fn print_with(p: &PrintParser, vm: &VM, text: &str) -> Result<(), String> {
+    p.parse(vm, text).map(|_| ()).map_err(|e| format!("{}", e))
+}
+#[cfg(not(print_reader_takes_vm))]
+pub fn print_with(_p: &PrintParser, _vm: &VM, _text: &str) -> Result<(), String> {
+    Ok(())
+}
+pub fn print_reader_direct() -> bool {
+    cfg!(print_reader_takes_vm)
+}
+
 /// everything the driver takes from the assembler's context, in a fixed order
 fn ctx_summary(ctx: &mut PreprocessorContext) -> String {
     let mut und: Vec<(usize, String)> = ctx.undefined_labels.iter().cloned().collect();
@@ -427,7 +440,7 @@ fn poison(p: &Parsers, text: &str) -> String {
         };
         let st = Rc::new(RefCell::new(MiniState { records: String::new(), stdin: VecDeque::new() }));
         let prev = sim_io::install(Box::new(MiniConsole(st.clone())));
-        let c = match p.printer.parse(&vm, text) {
+        let c = match print_with(&p.printer, &vm, text) {
             Ok(_) => format!("ok {}", st.borrow().records),
             Err(e) => format!("err {}", e),
         };
